@@ -308,6 +308,6 @@ func init() {
 		Real:        []string{"smtp.Client (Mail, Rcpt, Data, LMTPData, dataCloser.Close, Noop, Quit)", "net/textproto DotWriter/Reader", "smtp.Server.Serve/handleConn", "smtp.Conn handlers", "dataReader", "lineLimitReader"},
 		Stub:        []string{"net.Listener (SimListener)", "net.Conn (SimConn, re-segmenting)", "Backend/Session (SimBackend)", "clock (synctest)"},
 		Assumptions: []string{"an empty body may arrive as \"\" or as a single CRLF", "bodies contain CR only as part of CRLF, as the property states"},
-		QuickRuns:   25000, ThoroughRuns: 1500000,
+		QuickRuns:   150000, ThoroughRuns: 3000000,
 	})
 }
